@@ -321,6 +321,8 @@ pub enum Kind {
     // ComparisonInstructions (through jubjub().native_gadget())
     BoundedOf(usize),
     Cmp { op: CmpOp, n: usize },
+    /// two bounded operands declared with DIFFERENT bit bounds (x < 2^nx, y < 2^ny)
+    Cmp2 { op: CmpOp, nx: usize, ny: usize },
     CmpFixed { op: CmpOp, n: usize, c: F },
     // DivisionInstructions
     DivRem { d: BigUint, bound: Option<BigUint> },
@@ -335,7 +337,10 @@ pub enum Kind {
     // VectorInstructions: element type, M, A
     VecObserve { t: Ty, m: usize, a: usize, filler: Option<V> },
     VecFlags { t: Ty, m: usize, a: usize },
-    VecTrim { t: Ty, m: usize, a: usize, n: usize },
+    /// `observe` = also run get_limits / value() on the result; `false` = the operation alone
+    /// (its documented domain len >= n must be enforced by trim_beginning itself, and nothing
+    /// the harness adds afterwards can reject in its place)
+    VecTrim { t: Ty, m: usize, a: usize, n: usize, observe: bool },
     VecResize { t: Ty, m: usize, a: usize, l: usize },
     // MapInstructions
     MapGet,
@@ -439,8 +444,8 @@ impl Src {
     }
 }
 
-pub const VEC_SHAPES: &[(usize, usize)] = &[(8, 4), (6, 2), (6, 3), (4, 1)];
-pub const VEC_RESIZES: &[(usize, usize, usize)] = &[(8, 4, 12), (6, 2, 10), (6, 3, 9), (4, 1, 5)];
+pub const VEC_SHAPES: &[(usize, usize)] = &[(8, 4), (6, 2), (6, 3), (4, 1), (12, 3)];
+pub const VEC_RESIZES: &[(usize, usize, usize)] = &[(8, 4, 12), (6, 2, 10), (6, 3, 9), (4, 1, 5), (12, 3, 15)];
 
 #[derive(Clone, Debug)]
 pub struct Entry {
@@ -500,7 +505,7 @@ impl Kind {
             ToBits { .. } | ToBytes { .. } | FromBits { .. } | FromBytes { .. } | ToChunks { .. } | Sgn0 => "DecompositionInstructions",
             IsCanonical(_) | BitsLower { .. } | BitsGeq { .. } => "CanonicityInstructions",
             AssignLower(_) | AssertLower(_) => "RangeCheckInstructions",
-            BoundedOf(_) | Cmp { .. } | CmpFixed { .. } => "ComparisonInstructions",
+            BoundedOf(_) | Cmp { .. } | Cmp2 { .. } | CmpFixed { .. } => "ComparisonInstructions",
             DivRem { .. } | Rem { .. } => "DivisionInstructions",
             Select(_) | CondAssertEqual(_) | CondSwap(_) => "ControlFlowInstructions",
             Convert { .. } | ConvertUnsafeNY => "ConversionInstructions",
@@ -582,6 +587,7 @@ impl Kind {
             AssertLower(b) => format!("assert_lower_than_fixed[{}]", if b.count_ones() == 1 { "pow2" } else { "non-pow2" }),
             BoundedOf(_) => "bounded_of_element+element_of_bounded".into(),
             Cmp { op, .. } => cmp(op).into(),
+            Cmp2 { op, .. } => format!("{}[mixed bounds]", cmp(op)),
             CmpFixed { op, .. } => format!("{}_fixed", cmp(op)),
             DivRem { bound, .. } => format!("div_rem[{}]", if bound.is_some() { "bounded" } else { "unbounded" }),
             Rem { bound, .. } => format!("rem[{}]", if bound.is_some() { "bounded" } else { "unbounded" }),
@@ -592,7 +598,8 @@ impl Kind {
             ConvertUnsafeNY => "convert_unsafe<native->byte>".into(),
             VecObserve { filler, .. } => format!("vector.assign_with_filler[{}]+get_limits", if filler.is_some() { "filler" } else { "default" }),
             VecFlags { .. } => "vector.padding_flag".into(),
-            VecTrim { .. } => "vector.trim_beginning".into(),
+            VecTrim { observe: true, .. } => "vector.trim_beginning".into(),
+            VecTrim { observe: false, .. } => "vector.trim_beginning[domain]".into(),
             VecResize { .. } => "vector.resize".into(),
             MapGet => "map.get".into(),
             MapInsert => "map.insert+succinct_repr".into(),
@@ -619,6 +626,7 @@ impl Kind {
             },
             StdLowerThan(n) | Bnot(n) | IsCanonical(n) | BoundedOf(n) => format!("n={n}"),
             Bin { n, .. } | Bitwise { n, .. } | Cmp { n, .. } => format!("n={n}"),
+            Cmp2 { nx, ny, .. } => format!("nx={nx},ny={ny}"),
             ToBits { nb, .. } | ToBytes { nb, .. } => format!("nb={nb:?}"),
             FromBits { n, .. } | FromBytes { n, .. } => format!("n={n}"),
             ToChunks { bits, nb } => format!("bits={bits},nb={nb:?}"),
@@ -627,7 +635,7 @@ impl Kind {
             CmpFixed { n, c, .. } => format!("n={n},c={}", fhex(c)),
             DivRem { d, bound } | Rem { d, bound } => format!("d={},bound={}", bhex(d), bound.as_ref().map(bhex).unwrap_or("None".into())),
             VecObserve { t, m, a, .. } | VecFlags { t, m, a } => format!("{},M={m},A={a}", t.tag()),
-            VecTrim { t, m, a, n } => format!("{},M={m},A={a},n={n}", t.tag()),
+            VecTrim { t, m, a, n, .. } => format!("{},M={m},A={a},n={n}", t.tag()),
             VecResize { t, m, a, l } => format!("{},M={m},A={a},L={l}", t.tag()),
             AssignMany { len, .. } => format!("len={len}"),
             Fixed { inner, consts } => {
@@ -680,7 +688,7 @@ impl Kind {
             IsEq { ty, .. } | AssertEq { ty, .. } => vec![*ty; 2],
             IsEqFixed { c, .. } | AssertEqFixed { c, .. } => vec![c.ty()],
             AssertTrue | AssertFalse | Not => vec![Ty::B],
-            StdLowerThan(_) | Cmp { .. } | Bitwise { .. } => vec![Ty::N; 2],
+            StdLowerThan(_) | Cmp { .. } | Cmp2 { .. } | Bitwise { .. } => vec![Ty::N; 2],
             Bin { n, .. } | FromBits { n, .. } | IsCanonical(n) | BitsLower { n, .. } | BitsGeq { n, .. } => vec![Ty::B; *n],
             Bnot(_) | ToBits { .. } | ToBytes { .. } | ToChunks { .. } | AssertLower(_) | BoundedOf(_) | CmpFixed { .. } | DivRem { .. }
             | Rem { .. } => vec![Ty::N],
@@ -696,7 +704,7 @@ impl Kind {
         match self {
             Kind::Fixed { inner, .. } => inner.needs_jubjub(),
             Kind::Chain { steps, .. } => steps.iter().any(|s| matches!(s, Step::CmpFixed { .. } | Step::BoundedOf(_))),
-            _ => matches!(self, Kind::BoundedOf(_) | Kind::Cmp { .. } | Kind::CmpFixed { .. } | Kind::ConvertUnsafeNY),
+            _ => matches!(self, Kind::BoundedOf(_) | Kind::Cmp { .. } | Kind::Cmp2 { .. } | Kind::CmpFixed { .. } | Kind::ConvertUnsafeNY),
         }
     }
     pub fn needs_poseidon(&self) -> bool {
@@ -727,6 +735,7 @@ impl Kind {
                 | AssertLower(_)
                 | BoundedOf(_)
                 | Cmp { .. }
+                | Cmp2 { .. }
                 | CmpFixed { .. }
                 | DivRem { .. }
                 | Rem { .. }
@@ -891,6 +900,7 @@ enum VecOp {
     Observe,
     Flags,
     Trim(usize),
+    TrimOnly(usize),
 }
 
 fn vec_run<L: Layouter<F>, T: Elem, const M: usize, const AL: usize>(
@@ -922,15 +932,33 @@ where
                 }
             }
         }
+        VecOp::TrimOnly(n) => {
+            // input section only: the limits of the input vector pin its length
+            for a in vec_limits(s, l, &v)? {
+                expose(s, l, &a)?;
+            }
+            let _ = s.trim_beginning(l, &v, n)?;
+        }
         VecOp::Trim(n) => {
             let out = s.trim_beginning(l, &v, n)?;
+            // `InnerValue::value()` of the result is only meaningful inside the documented domain
+            // (len >= n); outside it the harness must not be the one that panics
+            let mut in_domain = true;
+            w.as_ref().map(|x| in_domain = x.len() >= n);
             // input section: the limits of the input vector (they pin its length) and the
             // off-circuit payload of the result; outputs: limits of the result
             for a in vec_limits(s, l, &v)? {
                 expose(s, l, &a)?;
             }
-            for a in vec_payload(s, l, &out)? {
-                expose(s, l, &a)?;
+            if in_domain {
+                for a in vec_payload(s, l, &out)? {
+                    expose(s, l, &a)?;
+                }
+            } else {
+                for _ in 0..M {
+                    let c: T = s.assign(l, Value::known(T::default_elem()))?;
+                    expose(s, l, &c.wrap())?;
+                }
             }
             for a in vec_limits(s, l, &out)? {
                 expose(s, l, &a)?;
@@ -1126,10 +1154,11 @@ impl Entry {
                 let e: AssignedNative<F> = ng.element_of_bounded(l, &bx)?;
                 vec![A::N(e)]
             }
-            Cmp { op, n: k } => {
+            Cmp { op, n: k } | Cmp2 { op, nx: k, .. } => {
+                let ky = if let Cmp2 { ny, .. } = &self.kind { ny } else { k };
                 let ng = s.jubjub().native_gadget();
                 let bx = ng.bounded_of_element(l, *k, n(0))?;
-                let by = ng.bounded_of_element(l, *k, n(1))?;
+                let by = ng.bounded_of_element(l, *ky, n(1))?;
                 vec![A::B(match op {
                     CmpOp::Lt => ng.lower_than(l, &bx, &by)?,
                     CmpOp::Gt => ng.greater_than(l, &bx, &by)?,
@@ -1331,9 +1360,9 @@ impl Entry {
                 Ty::Y => vec_dispatch_y(*m, *a, s, l, &w, None, VecOp::Flags),
                 Ty::B => panic!("harness: bit vectors are not Vectorizable"),
             },
-            VecTrim { t, m, a, n } => match t {
-                Ty::N => vec_dispatch_n(*m, *a, s, l, &w, None, VecOp::Trim(*n)),
-                Ty::Y => vec_dispatch_y(*m, *a, s, l, &w, None, VecOp::Trim(*n)),
+            VecTrim { t, m, a, n, observe } => match t {
+                Ty::N => vec_dispatch_n(*m, *a, s, l, &w, None, if *observe { VecOp::Trim(*n) } else { VecOp::TrimOnly(*n) }),
+                Ty::Y => vec_dispatch_y(*m, *a, s, l, &w, None, if *observe { VecOp::Trim(*n) } else { VecOp::TrimOnly(*n) }),
                 Ty::B => panic!("harness: bit vectors are not Vectorizable"),
             },
             VecResize { t, m, a, l: ll } => match (t, m, a, ll) {
@@ -1341,10 +1370,12 @@ impl Entry {
                 (Ty::N, 6, 2, 10) => vec_resize_run::<_, AssignedNative<F>, 6, 2, 10>(s, l, &w),
                 (Ty::N, 6, 3, 9) => vec_resize_run::<_, AssignedNative<F>, 6, 3, 9>(s, l, &w),
                 (Ty::N, 4, 1, 5) => vec_resize_run::<_, AssignedNative<F>, 4, 1, 5>(s, l, &w),
+                (Ty::N, 12, 3, 15) => vec_resize_run::<_, AssignedNative<F>, 12, 3, 15>(s, l, &w),
                 (Ty::Y, 8, 4, 12) => vec_resize_run::<_, AssignedByte<F>, 8, 4, 12>(s, l, &w),
                 (Ty::Y, 6, 2, 10) => vec_resize_run::<_, AssignedByte<F>, 6, 2, 10>(s, l, &w),
                 (Ty::Y, 6, 3, 9) => vec_resize_run::<_, AssignedByte<F>, 6, 3, 9>(s, l, &w),
                 (Ty::Y, 4, 1, 5) => vec_resize_run::<_, AssignedByte<F>, 4, 1, 5>(s, l, &w),
+                (Ty::Y, 12, 3, 15) => vec_resize_run::<_, AssignedByte<F>, 12, 3, 15>(s, l, &w),
                 other => panic!("harness: resize shape {other:?} not instantiated"),
             },
             MapGet | MapInsert => {
@@ -1446,8 +1477,9 @@ impl Entry {
                 }
                 vec![fbit(n(0) < n(1))]
             }
-            Cmp { op, n: k } => {
-                if n(0) >= two_pow(*k) || n(1) >= two_pow(*k) {
+            Cmp { op, n: k } | Cmp2 { op, nx: k, .. } => {
+                let ky = if let Cmp2 { ny, .. } = &self.kind { ny } else { k };
+                if n(0) >= two_pow(*k) || n(1) >= two_pow(*ky) {
                     return None;
                 }
                 vec![fbit(match op {
@@ -1701,11 +1733,15 @@ impl Entry {
                 v.extend(vec_expected_flags(*m, *a, x.len()));
                 Some((v, n_in))
             }
-            VecTrim { m, a, n, .. } => {
+            VecTrim { m, a, n, observe, .. } => {
                 if x.len() < *n {
                     return None;
                 }
                 let mut v = vec_expected_limits(*m, *a, x.len());
+                if !*observe {
+                    let n_in = v.len();
+                    return Some((v, n_in));
+                }
                 v.extend(vec_expected_payload(*m, &x[*n..]));
                 let n_in = v.len();
                 v.extend(vec_expected_limits(*m, *a, x.len() - n));
@@ -1781,6 +1817,7 @@ fn vec_dispatch_n<L: Layouter<F>>(m: usize, a: usize, s: &ZkStdLib, l: &mut L, w
         (6, 2) => vec_run::<_, AssignedNative<F>, 6, 2>(s, l, w, f, op),
         (6, 3) => vec_run::<_, AssignedNative<F>, 6, 3>(s, l, w, f, op),
         (4, 1) => vec_run::<_, AssignedNative<F>, 4, 1>(s, l, w, f, op),
+        (12, 3) => vec_run::<_, AssignedNative<F>, 12, 3>(s, l, w, f, op),
         other => panic!("harness: vector shape {other:?} not instantiated"),
     }
 }
@@ -1790,6 +1827,7 @@ fn vec_dispatch_y<L: Layouter<F>>(m: usize, a: usize, s: &ZkStdLib, l: &mut L, w
         (6, 2) => vec_run::<_, AssignedByte<F>, 6, 2>(s, l, w, f, op),
         (6, 3) => vec_run::<_, AssignedByte<F>, 6, 3>(s, l, w, f, op),
         (4, 1) => vec_run::<_, AssignedByte<F>, 4, 1>(s, l, w, f, op),
+        (12, 3) => vec_run::<_, AssignedByte<F>, 12, 3>(s, l, w, f, op),
         other => panic!("harness: vector shape {other:?} not instantiated"),
     }
 }
